@@ -4,7 +4,40 @@ partial result (JSON) which check merges into evidence/<ID>.json."""
 VSIM = "{BIN}/vsim"
 VNATIVE = "{BIN}/vnative"
 
+NATIVE_NOTE = "Trusts: rustc; the Linux kernel's mmap/mprotect semantics and /proc/self/maps; symbol interposition by the static linker (calibrated at every worker start: a plain install must be seen to call mmap, mprotect and __clear_cache, else exit 2); the x86-64 mini-decoder (cross-checked against llvm-mc in `vsim selftest`). x86-64 Linux only; other OS layers (mach_vm_*, VirtualAlloc/Protect) are not compiled here."
+
 PLAN = {
+    "C01": {
+        "packages": ["vsim", "vnative"],
+        "engines": [
+            {"name": "n-place", "argv": [VNATIVE, "place", "--property", "C01"]},
+            {"name": "s1-amd64", "argv": [VSIM, "amd64", "--property", "C01", "--modes", "fn,bool"]},
+        ],
+    },
+    "C02": {
+        "packages": ["vnative"],
+        "engines": [
+            {"name": "n-hist", "argv": [VNATIVE, "hist", "--property", "C02"]},
+        ],
+    },
+    "C03": {
+        "packages": ["vnative"],
+        "engines": [
+            {"name": "n-hist-snap", "argv": [VNATIVE, "hist", "--property", "C03"]},
+        ],
+    },
+    "C12": {
+        "packages": ["vnative"],
+        "engines": [
+            {"name": "n-hist-cycles", "argv": [VNATIVE, "hist", "--property", "C12"]},
+        ],
+    },
+    "C17": {
+        "packages": ["vnative"],
+        "engines": [
+            {"name": "n-hist-flush", "argv": [VNATIVE, "hist", "--property", "C17"]},
+        ],
+    },
     "C15": {
         "packages": ["vsim"],
         "engines": [
@@ -20,6 +53,8 @@ PLAN = {
 }
 
 ENGINES = [
+    {"name": "vnative (N)", "path": "/verif/harness/vnative", "serves_properties": ["C01", "C02", "C03", "C04", "C05", "C10", "C11", "C12", "C13", "C14", "C17"],
+     "kind_free_text": "proptest driver + isolated worker process (ASLR off) executing generated cases against the real crate: synthetic code arenas at generated addresses, executable-level interposition of mmap/munmap/mprotect/__clear_cache with fault/layout plans and pause points, executable-memory snapshots, x86-64 mini-decoder, assembly probes"},
     {"name": "vsim (S1/S2)", "path": "/verif/harness/vsim", "serves_properties": ["C01", "C10", "C11", "C13", "C15", "C16", "C17", "C02"],
      "kind_free_text": "the repository's unmodified arch-specific sources compiled on the host (build.rs copy, 3 asserted textual cfg rewrites) against simulated memory; proptest generators + exhaustive sub-sweeps; oracles = independent A64/A32/T32/x86-64 decoders"},
 ]
@@ -27,6 +62,41 @@ ENGINES = [
 NOT_APPLICABLE = {}
 
 META = {
+    "C01": {
+        "level": "exploration",
+        "design_ref": "DESIGN.md §4 C01, §2.1, §2.2",
+        "technique": "property-based testing: proptest-generated address placements executed against the real crate in an isolated worker (harness-owned address space: synthetic code arenas, interposer-dictated trampoline page, fake mapped at a chosen displacement) + the real amd64 encoder in simulation over the whole 64-bit space; oracle = independent x86-64 decoder followed by really calling the function",
+        "text": "Native: ~2.4*10^3 (quick) / 1.2*10^5 (thorough) generated placements (function below 128 MiB / low 4 GiB / near the image / near libs / mid space, any in-page offset incl. page-straddling entries, trampoline page dictated anywhere in +/-128 MiB, fake at +/-2^31+-k and far, every API flavour, callers on 1-4 extra threads): the written bytes are decoded to the fake's entry and the function is then really called; a worker crash is a verdict. Simulation: 3*10^5 / 2*10^7 cases of the real patch_amd64.rs over all 64-bit addresses incl. the Windows-style long entry, with the rel32 boundary enumerated exhaustively on both hops. Sampling, not proof.",
+        "note": NATIVE_NOTE + " A refusal (panic) that leaves the target untouched satisfies the statement and is counted, not judged.",
+    },
+    "C02": {
+        "level": "exploration",
+        "design_ref": "DESIGN.md §4 C02",
+        "technique": "stateful property-based testing: proptest-generated install histories (vec of lifetimes x vec of Install/Call steps) interpreted against the real crate; oracle = reference model (per-target stack) while alive + pristine-snapshot round trip after every lifetime",
+        "text": "2.4*10^3 (quick) / 1.2*10^5 (thorough) generated histories (~6*10^3 / 3*10^5 lifetimes) over 9 real targets (plain, two instantiations of a generic, bool, libc labs, method) and up to 3 synthetic ones, kinds raw/closure/fake!/boolean/unchecked with repetition on one target, normal and unwinding exits, many consecutive lifetimes per process. While alive every call must return the latest installation's value; after each lifetime the first 32 bytes of every target equal the process-start snapshot and the original value is back.",
+        "note": NATIVE_NOTE + " Async installs are exercised under C14. Page protections after restoration are not judged (the statement speaks of code bytes and behaviour).",
+    },
+    "C03": {
+        "level": "exploration",
+        "design_ref": "DESIGN.md §4 C03",
+        "technique": "property-based testing with a history invariant: full snapshots of every readable executable mapping between all steps of generated install histories; diff must lie inside named targets' 16-byte entry slots or injector-created trampoline pages",
+        "text": "480 (quick) / 1.6*10^4 (thorough) generated histories with ~6 full executable-memory snapshots each (program text, all shared objects, vdso, arenas, trampolines; ~10 MB per snapshot). Targets sit between live neighbours at +/-16 bytes in synthetic arenas (incl. the last slot of a page), next to another instantiation of the same generic function and next to libc neighbours. Every differing byte between consecutive snapshots must be within 16 bytes of a target named so far or inside a mapping the interposer saw the injector create; after the drop the diff against the first snapshot must be empty; never-named functions are called at every observation point.",
+        "note": NATIVE_NOTE,
+    },
+    "C12": {
+        "level": "exploration",
+        "design_ref": "DESIGN.md §4 C12",
+        "technique": "stateful property-based testing: generated create/install/drop cycles repeated up to thousands of times per case; oracle = history invariant over the interposed mmap/munmap log plus /proc/self/maps before/after",
+        "text": "640 (quick) / 1.2*10^4 (thorough) generated cases, each a cycle pattern repeated 1..120 (quick) / 1..4000 (thorough) times: ~4*10^4 / >10^6 cycles and ~10^5 / >3*10^6 installs per run. Every mapping an install keeps must be released exactly once at scope exit with a covering length, nothing else may be unmapped, and the set of executable anonymous pages after the cycles equals the set before.",
+        "note": NATIVE_NOTE + " Per-step logs are kept for the first 6 lifetimes of a case; later cycles are judged by aggregate counters (created == released, no foreign/duplicate munmap) and the final /proc/self/maps comparison.",
+    },
+    "C17": {
+        "level": "exploration",
+        "design_ref": "DESIGN.md §4 C17",
+        "technique": "property-based testing with a history invariant: interposed __clear_cache calls (range + content at call time) are matched against byte diffs between observation points of generated install histories and placements",
+        "text": "1.6*10^3 (quick) / 8*10^4 (thorough) generated histories: for every byte that differs between two observation points (entry patch, trampoline content vs. the fresh zero page, restoration at scope exit, normal and unwinding) there must be a flush in between whose range contains the byte and whose captured content there equals the final content (so no write followed the flush).",
+        "note": NATIVE_NOTE + " On x86-64 __clear_cache is a no-op, so interposing it is behaviour-neutral; the aarch64 dsb/isb barrier and the macOS sys_icache_invalidate path cannot be observed on this host. The redundant second flush in PatchGuard::drop is not demanded.",
+    },
     "C15": {
         "level": "exploration",
         "design_ref": "DESIGN.md §4 C15, §2.2",
